@@ -134,6 +134,11 @@ def cases(tier, seed, args):
             out.append(dict(t='stackeq', fn=['wmwf_fd', 'wmwf_mu'][i % 2], L=2 + i % 2, **dict(base(i), F=[3, 8, 2, 5][i % 4])))
         for i in range(n):
             out.append(dict(t='singular', fn=['souden', 'wmwf'][i % 2], kind=['zero', 'rank', 'both'][i % 3], **base(i)))
+        # the full grid function x dtypes of (target, noise) x kind of degenerate bin, deterministically
+        for fn_ in ('souden', 'wmwf'):
+            for dt_ in ('cc', 'rc', 'cr', 'ss'):
+                for kd_ in ('zero', 'rank', 'both'):
+                    out.append(dict(t='singular', fn=fn_, kind=kd_, dt=dt_, **dict(base(0), D=int(rng.integers(2, 6)), F=int(rng.integers(3, 7)))))
         # every bin degenerate (target PSD zero, or noise PSD zero, in all bins) with the ESTIMATED reference channel
         for i in range(6 if q else 24):
             out.append(dict(t='singular_all', which=['target', 'noise', 'both'][i % 3], name=['direct', 'wmwf', 'wmwf+ban', 'rank1_pca+wmwf'][(i // 3) % 4],
@@ -692,7 +697,7 @@ def run_case(case):
             else:
                 v = cvec(rng, D)
                 pn[b] = np.outer(v, v.conj())
-        dt = ['cc', 'cc', 'rc', 'cr', 'ss'][(case['seed'] // 2) % 5]       # dtypes of (target, noise): complex / real / single
+        dt = case.get('dt') or ['cc', 'cc', 'rc', 'cr', 'ss'][(case['seed'] // 2) % 5]       # dtypes of (target, noise): complex / real / single
         if dt[0] == 'r':
             # real-dtype target PSD (real symmetric rank-one target), complex noise PSD
             ar = rng.normal(size=(Fs, D))
